@@ -27,6 +27,8 @@ type World struct {
 	gaddr   map[*ssa.Global]string
 	ufs     map[string]string
 	fnIndex map[string]*ssa.Function // pkg::key -> function
+	cfg     map[*ssa.Global]*ssa.Function
+	cfgBad  map[*ssa.Global]bool
 }
 
 func findContractDirs(root string) map[string]string {
@@ -104,7 +106,40 @@ func (w *World) inRepo(pkgPath string) bool {
 	return pkgPath == modPath || strings.HasPrefix(pkgPath, modPath+"/")
 }
 
-var pureExtPrefixes = []string{"fmt.", "strconv.", "strings.", "errors.", "time.", "math.", "math/", "bytes.Equal", "bytes.Compare",
+// constFuncGlobal: the function a package-level func variable is bound to, if it is
+// assigned exactly once (in the package initialiser) in the whole program.
+func (w *World) constFuncGlobal(g *ssa.Global) *ssa.Function {
+	if w.cfg == nil {
+		w.cfg = map[*ssa.Global]*ssa.Function{}
+		w.cfgBad = map[*ssa.Global]bool{}
+		for fn := range ssautil.AllFunctions(w.prog) {
+			for _, b := range fn.Blocks {
+				for _, in := range b.Instrs {
+					st, ok := in.(*ssa.Store)
+					if !ok {
+						continue
+					}
+					gg, ok := st.Addr.(*ssa.Global)
+					if !ok {
+						continue
+					}
+					f, isF := st.Val.(*ssa.Function)
+					if !isF || fn.Name() != "init" || w.cfg[gg] != nil {
+						w.cfgBad[gg] = true
+						continue
+					}
+					w.cfg[gg] = f
+				}
+			}
+		}
+	}
+	if w.cfgBad[g] {
+		return nil
+	}
+	return w.cfg[g]
+}
+
+var pureExtPrefixes = []string{"github.com/lni/goutils/logutil.", "fmt.", "strconv.", "strings.", "errors.", "time.", "math.", "math/", "bytes.Equal", "bytes.Compare",
 	"github.com/cockroachdb/errors.", "hash/crc32.", "path/filepath.", "path.", "sort.Search", "unicode", "os.Getenv", "runtime.",
 	"(time.", "(*time.", "math/rand.", "(*math/rand.", "reflect.", "sync/atomic.", "github.com/lni/goutils/random."}
 
